@@ -172,9 +172,11 @@ Inductive item :=
 | IEvent (p : Z) (src : dsrc) (ty : Z) (evd : option (list Z))    (* NewTPMEvent; tpmsteps.Measure has evd = None *)
 | IExtend (p : Z) (src : dsrc) (a : Z)                            (* bare NewTPMExtend *)
 | ILogAdd (p a : Z) (d : list Z) (ty : Z) (evd : option (list Z)) (* bare NewTPMEventLogAdd *)
-| IPCR0Data (r1 r256 : option (list ref)).                        (* intelsteps.MeasurePCR0DATA: the six
+| IPCR0Data (r1 r256 : option (list ref))                         (* intelsteps.MeasurePCR0DATA: the six
                                                                      references per bank; None = no IBB digest
                                                                      of that algorithm in the BPM *)
+| IPanic.                                                         (* commonsteps.Panic, or a step that could not
+                                                                     be built and returns commonactions.Panic *)
 
 (** [LogInitStruct.Actions]: one EV_NO_ACTION entry per algorithm in
     [tpm.SupportedAlgos], digest = that many zero bytes *)
@@ -205,6 +207,7 @@ Definition compile_item (t : state) (it : item) : outcome (list tact) :=
   | ILogAdd p a d ty evd => Ok [ALogAdd p a d ty evd]
   | IPCR0Data r1 r256 =>
       bind (pcr0_pair ALG_SHA1 r1) (fun x => bind (pcr0_pair ALG_SHA256 r256) (fun y => Ok (x ++ y)))
+  | IPanic => Ok [APanic]
   end.
 
 (** [Step.Actions(ctx, state)] of a step made of several items (MergeSteps /
@@ -276,6 +279,7 @@ Arguments IEvent {ref}.
 Arguments IExtend {ref}.
 Arguments ILogAdd {ref}.
 Arguments IPCR0Data {ref}.
+Arguments IPanic {ref}.
 Arguments mkSim {ref}.
 Arguments s_tpm {ref}.
 Arguments s_meas {ref}.
